@@ -67,7 +67,7 @@ impl T {
             T::Int => if l == Leaves::Full { 3 } else { 1 },
             T::Bool => if l == Leaves::Full { 2 } else { 1 },
             T::Void => 1,
-            T::Str => if l == Leaves::Full { 2 } else { 1 },
+            T::Str => if l == Leaves::Full { 3 } else { 1 },
             T::Arr(t) => {
                 let n = t.count(l);
                 1 + n + n * n
@@ -96,9 +96,10 @@ impl T {
             T::Void => vec![Val::Nil],
             T::Str => {
                 if l == Leaves::Full {
-                    vec![Val::Str("s".into()), Val::Str("".into())]
+                    vec![Val::Str("s".into()), Val::Str("".into()), Val::Str("é中".into())]
                 } else {
-                    vec![Val::Str("s".into())]
+                    // ASCII and multi-byte characters: the text passes byte-wise through `..`
+                    vec![Val::Str("sé".into())]
                 }
             }
             T::Arr(t) => {
